@@ -49,6 +49,14 @@ CHECKS = {
    text="Bounded symbolic model checking of the reply path: negotiateContentType on Accept headers with symbolic tokens and q digits against an RFC 7231 admission reference, arbitrary Accept / Accept-Encoding bytes (no crash, result among the offers), streamHTTP.SendMsg (body = what the codec named by Content-Type produced, HttpBody = raw data under its own type, send limit exact, response_body walks the reply's field), response_body resolution at registration in the reply type.",
    note="Trusted base as C06. Outside: byte-level JSON / protobuf encoding (stub), Content-Encoding truthfulness (gzip / serveHTTP driver), Accept headers beyond the stated shapes.",
    design="§4 C04"),
+ "C07": dict(
+   text="Bounded symbolic model checking through the real public entry: NewMux + registerService + ServeHTTP -> serveHTTP -> RecvMsg -> params.set on fake descriptors, with the path capture and a competing value for the same field as independent symbolic strings supplied through the query string and/or the decoded body; the field the handler receives must equal the capture (a relational query: any model with received != capture is a counterexample).",
+   note="Trusted: go/ssa semantics, engine (witness replay), z3, fake descriptor / registry / ResponseWriter kit, stub of proto.GetExtension. Outside: repeated path-bound fields, percent-escaped query values.",
+   design="§4 C07"),
+ "C03": dict(
+   text="Bounded symbolic model checking of request reconstruction: query-key resolution (proto / JSON names, dotted paths), per-kind conversion of URL text for string, bytes (base64 per the proto3-JSON rule, against a reference decoder), enum, int32 and bool, application to the message (set / append / nested creation), rejection of unknown keys and of paths through repeated or map fields, and through the real ServeHTTP the body plumbing (bytes reach the codec unmodified exactly once on the whole message or the body field, params after the body).",
+   note="Trusted base as C07 plus the exact model of encoding/json.Unmarshal for integer / bool targets. N/A part, stated: float / 64-bit / well-known-type text conversion, real JSON / protobuf codecs, gzip.",
+   design="§4 C03"),
 }
 
 NOT_APPLICABLE = {
